@@ -20,7 +20,10 @@ MANIFEST_ENTRY = dict(
     engine='control',
     technique='TLA+ interpreter of the pass language (specs/control/ControlFlowInterp.tla); TLC enumerates pass trees x predicate '
               'scripts as states of a generator and checks meta-properties (ControlFlowMC.tla); every enumerated case and seeded '
-              'larger ones are run on the real passes and the recorded executions are judged by TLC (ControlFlow.tla)',
+              'larger ones are run on the real passes and the recorded executions are judged by TLC (ControlFlow.tla); pass-data '
+              'values have identity (a store of cell objects), so in-place mutation vs rebinding is part of the language and TLC '
+              'flags the behaviours in which a shallow snapshot would differ; a second model (ForEachParams.tla) generates the ways a '
+              'block\'s own and stored angles come apart and judges the real ForEachBlockPass on the exact domain (Monomial.Sem)',
     text='The pass language Body | Workflow | IfThenElse | While | DoWhile | DoThenDecide | ParallelDo | ForEachBlockPass(collection '
          'filter, body, replace filter) has a recursive TLA+ interpreter over an abstract circuit (tagged ops, blocks with inner '
          'circuits) and an abstract PassData (user keys, placement, initial/final mapping, error as an exact rational, '
@@ -33,8 +36,16 @@ MANIFEST_ENTRY = dict(
          'empty / grow / fail / nested control flow, five collection filters, four replace filters, calculate_error_bound on/off) '
          'is executed on the real passes - directly as coroutines, or through the real runtime under the deterministic SimKernel '
          'with 1-4 workers and varied schedules - with instrumented bodies and scripted predicates; body log, final circuit '
-         '(per-qudit sequences), final PassData incl. mappings, block data order and the error bookkeeping formula are compared by TLC.',
-    note='NOT decided: "the reported error is never smaller than the distance actually introduced" (needs a numeric distance): with '
+         '(per-qudit sequences), final PassData incl. mappings, block data order and the error bookkeeping formula are compared by TLC. '
+         'Bodies also write INTO objects the data already holds (in-place edit of a pre-existing list/nested dict, rebinding it, in-place '
+         'edit of the lists handed out by initial_mapping/final_mapping/placement, assignment into the model via gate_set); the deep '
+         'values are read after the control pass. ForEachParams.tla: TLC enumerates build histories (block folded with own angles / one '
+         'shared template gate / set_params after blocking / pickling on submission) x body (identity, zero last angle, append Z) x '
+         'collection filter x replace filter x calculate_error_bound; each replayed behaviour is judged by exact semantics: what every '
+         'body received vs the collected operation, the written-back circuit vs the expected one, and reported error >= 1/16 whenever the '
+         'circuit changed (every change on this domain is at distance >= 0.129).',
+    note='"The reported error is never smaller than the distance actually introduced" is decided only on the exact domain of '
+         'ForEachParams.tla (distance 0 or >= 0.129); elsewhere: with '
          'calculate_error_bound the per-block errors are taken as observed (rounded to 1/4096) and only the formula '
          '1-(1-e)(1-sum of replaced block errors) is checked (within 1/512; exactly, with rationals, when the bodies report the errors). '
          'Not covered: ParallelDo(pick_first=True); ParallelDo/ForEach nested inside a ParallelDo branch or a ForEach body; scripted '
@@ -73,7 +84,7 @@ def _run(case):
 def _mc(ctx: Ctx, out: Outcome):
     """TLC model-checking run: enumerate trees x scripts, check the meta-properties, export the cases."""
     invs = ['DTDRestores', 'WhileCount', 'DoWhileCount', 'SeqConcat', 'IfOneBranch', 'ParPicksABranch', 'FEShape',
-            'LogProjection', 'L2OnlyMappings', 'Sanity', 'Export']
+            'LogProjection', 'L2OnlyMappings', 'ShallowOnlyCell', 'Sanity', 'Export']
 
     def cfg(name, depth, rich, with_invs=True):
         path = os.path.join(ctx.scratch, name)
@@ -120,6 +131,117 @@ def _mc(ctx: Ctx, out: Outcome):
     return r, acts, cases
 
 
+# ------------------------------------------------------------------ ForEachBlockPass and block parameters
+PSPEC = os.path.join(common.SPECS, 'control', 'ForEachParams.tla')
+PCFG = os.path.join(common.SPECS, 'control', 'ForEachParams.cfg')
+
+
+def _run_param(case):
+    from harness import c11_passes as P
+    try:
+        rec = P.run_param_case(case, workers=case.get('workers', 1), sched_seed=case.get('sched', 0))
+    except Exception as e:
+        return {'machinery': '%s: %s | %s' % (type(e).__name__, str(e)[-300:], str(e.__cause__)[-300:])}
+    return rec
+
+
+def _params(ctx: Ctx, out: Outcome):
+    """Behaviours of the L2 model of ForEachParams.tla (TLC enumerates how a block's own and stored angles come apart),
+    replayed into the real ForEachBlockPass and judged by the L1 part of the same module."""
+    from harness import c11_passes as P
+    rng = random.Random(ctx.seed * 104729 + 5)
+    info = {}
+    states = trans = 0
+    if ctx.replay:
+        cases = [ctx.replay['replay']['case']]
+    else:
+        nb = 2 if ctx.quick else 3
+        cfg = os.path.join(ctx.scratch, 'ForEachParamsGen.cfg')
+        with open(cfg, 'w') as f:
+            f.write('SPECIFICATION GenSpec\nCONSTANTS\n  MaxBlocks = %d\nINVARIANTS\n  GenTypeOK\n  GenNonVacuous\n  GenExport\nCHECK_DEADLOCK FALSE\n' % nb)
+        r = common.tlc(PSPEC, cfg, scratch=ctx.scratch, timeout=1500)
+        if not r.ok:
+            raise MachineryError('ForEachParams.tla (GenSpec): TLC failed or an invariant of the model is false: %s' % (r.error or r.out[-1500:]))
+        states, trans = r.distinct, r.states
+        allc = [json.loads(m.group(1).replace('\\"', '"').replace('\\\\', '\\')) for m in re.finditer(r'<<"CASE", "((?:[^"\\]|\\.)*)">>', r.out)]
+        kinds = {}
+        for c in allc:
+            for h in c['hist']:
+                kinds[h['k']] = kinds.get(h['k'], 0) + 1
+        vac = [k for k in ('own', 'shared', 'retune') if not kinds.get(k)]
+        if vac or not allc:
+            raise MachineryError('ForEachParams.tla: no exported behaviour with action(s) %s' % vac)
+        mech = [c for c in allc if c['matters'] > 0]
+        rest = [c for c in allc if c['matters'] == 0]
+        n_m, n_r = (260, 40) if ctx.quick else (4000, 600)
+        cases = (mech if len(mech) <= n_m else rng.sample(mech, n_m)) + (rest if len(rest) <= n_r else rng.sample(rest, n_r))
+        for c in cases:
+            c['workers'] = rng.randint(1, 3)
+            c['sched'] = rng.randrange(1 << 20)
+        info = {'spec': 'specs/control/ForEachParams.tla (GenSpec, MaxBlocks = %d)' % nb, 'states': states, 'behaviours_exported': len(allc),
+                'stored_angles_differ': sum(1 for c in allc if c['stale'] > 0), 'mechanism_matters': len(mech),
+                'replayed': len(cases), 'replayed_mechanism_matters': sum(1 for c in cases if c['matters'] > 0),
+                'build_actions_in_exported_behaviours': kinds}
+    recs = exact.pmap(_run_param, cases, procs=14 if not ctx.replay else 1, chunksize=4)
+    bad = [(i, r['machinery']) for i, r in enumerate(recs) if 'machinery' in r]
+    if len(bad) > max(3, len(recs) // 50):
+        raise MachineryError('%d of %d ForEach-parameter cases could not be run: %s' % (len(bad), len(recs), bad[:2]))
+    for i, msg in bad[:3]:
+        out.notes.append('UNOBSERVABLE foreach-params case=%d: %s' % (i, msg[:200]))
+    idx = [i for i, r in enumerate(recs) if 'machinery' not in r]
+    # model vs code: the (stored, own) angle pattern the pass really saw against the model's blocks
+    ndrift = 0
+    for i in idx:
+        want = [[P.ANGLE_SETS[b['sto']], P.ANGLE_SETS[b['op']]] for b in cases[i].get('blocks', [])]
+        if cases[i].get('blocks') and want != recs[i]['pairs']:
+            ndrift += 1
+            if ndrift <= 2:
+                out.notes.append('DRIFT property=C11 ForEachParams.tla: after %s the model expects (stored, own) angles %s, the pass saw %s'
+                                 % (json.dumps(cases[i]['hist']), want, recs[i]['pairs']))
+    keys = ('r', 'circ0', 'cf', 'rf', 'body', 'calc', 'recv', 'out', 'err')
+    vrecs = [{k: recs[i][k] for k in keys} for i in idx]
+    cor = []
+    if not ctx.replay and vrecs:
+        j = next((j for j, v in enumerate(vrecs) if v['rf'] == 0 and v['body'] == 2 and v['recv']), None)
+        if j is not None:
+            o = json.loads(json.dumps(vrecs[j]))
+            o['recv'][0] = o['recv'][0] + [exact.op_record('T', [], [0])]
+            vrecs.append(o)
+            cor.append('foreach-body-input-differs')
+            o = json.loads(json.dumps(vrecs[j]))
+            o['out'] = o['circ0']
+            o['err'] = [0, 4096]
+            o['calc'] = False
+            vrecs.append(o)
+            cor.append('foreach-writeback-result')
+    verdicts, s2, t2, _ = exact.par_validate(PSPEC, PCFG, vrecs, ctx.scratch, groups=4 if len(vrecs) > 100 else 1, chunk=1500)
+    nreal = len(vrecs) - len(cor)
+    got = {ci: [clause] + list(extra) for ci, _s, clause, extra in verdicts}
+    for n, expect in enumerate(cor):
+        if expect not in got.get(nreal + n, []):
+            raise MachineryError('corrupted ForEach-parameter observation (%s) was not rejected: got %s' % (expect, got.get(nreal + n)))
+    groups = {}
+    for ci in sorted(got):
+        if ci >= nreal:
+            continue
+        c = cases[idx[ci]]
+        for clause in got[ci]:
+            g = (clause, c['body'], c['cf'], c['rf'], bool(c['calc']))
+            groups.setdefault(g, []).append(ci)
+    for (clause, body, cf, rf, calc), cis in sorted(groups.items()):
+        c = cases[idx[cis[0]]]
+        rec = recs[idx[cis[0]]]
+        detail = ('%s: ForEachBlockPass(body %d, collection filter %d, replace filter %d, calculate_error_bound=%s) on blocks built by %s: '
+                  '(stored, own) angles of the blocks %s, the bodies received %s, reported error %s (%d case(s) of this kind; all failing '
+                  'clauses of this case: %s)' % (clause, body, cf, rf, calc, json.dumps(c['hist']), rec['pairs'],
+                                                [[(o['g'], o['p']) for o in rv] for rv in rec['recv']], rec['err'], len(cis), got[cis[0]]))
+        out.violations.append(Violation('C11', clause, {'clause': clause, 'kinds': 'foreach-params', 'body': body, 'cf': cf, 'rf': rf,
+                                                        'calc': calc}, detail, {'case': c}))
+    info.update({'validated': nreal, 'model_vs_code_pattern_mismatches': ndrift, 'corrupted_observations_rejected': len(cor),
+                 'cases_with_verdict': len([ci for ci in got if ci < nreal])})
+    return info, states + s2, trans + t2, nreal
+
+
 def build_cases(ctx: Ctx, mc_cases):
     rng = random.Random(ctx.seed * 7919 + 11)
     quick = ctx.quick
@@ -133,13 +255,19 @@ def build_cases(ctx: Ctx, mc_cases):
     rt_pick = rt if len(rt) <= n_rt else rng.sample(rt, n_rt)
     # all ParallelDo / ForEach roots of depth <= 1 are always run (the smallest witnesses)
     small = [c for c in rt if all(x['k'] in ('body', 'noop') for x in c['tree']['c'])]
-    rt_pick = small + [c for c in rt_pick if c not in small]
+    # behaviours in which the mechanism "DoThenDecide's snapshot shares objects with the live data" makes a difference
+    # (flag l2s computed by TLC: the shallow-snapshot variant of the interpreter ends in other data than the property)
+    mech = [c for c in rt if c.get('l2s')]
+    mech = mech if len(mech) <= (40 if quick else 600) else rng.sample(mech, 40 if quick else 600)
+    rt_pick = small + [c for c in mech if c not in small] + [c for c in rt_pick if c not in small and c not in mech]
     dir_pick = direct if len(direct) <= n_dir else rng.sample(direct, n_dir)
     for c in dir_pick + rt_pick:
         cases.append({'n': 3, 'ops': G.MC_OPS, 'e0': 1, 'tree': c['tree'], 'script': c['script'], 'calc': False,
                       'workers': rng.randint(1, 4), 'sched': rng.randrange(1 << 20), 'src': 'tlc-enumerated',
-                      'l2d': bool(c.get('l2d'))})
-    counts = {'tlc_direct_total': len(direct), 'tlc_runtime_total': len(rt), 'tlc_direct_run': len(dir_pick), 'tlc_runtime_run': len(rt_pick)}
+                      'l2d': bool(c.get('l2d')), 'l2s': bool(c.get('l2s'))})
+    counts = {'tlc_shallow_snapshot_differs_total': sum(1 for c in mc_cases if c.get('l2s')),
+              'tlc_shallow_snapshot_differs_run': sum(1 for c in cases if c.get('l2s')),
+              'tlc_direct_total': len(direct), 'tlc_runtime_total': len(rt), 'tlc_direct_run': len(dir_pick), 'tlc_runtime_run': len(rt_pick)}
     for i in range(1000 if quick else 8000):
         cases.append(G.direct_case(rng, i))
     for i in range(180 if quick else 1500):
@@ -177,6 +305,8 @@ def key_of(rec, clause, extra):
     k = {'clause': clause, 'kinds': kinds}
     if clause == 'mappings-not-restored':
         k['pass'] = extra or 'unexplained'
+    if clause == 'passdata-not-restored-or-lost' and extra:
+        k['pass'] = extra
     return k
 
 
@@ -195,6 +325,16 @@ def run(ctx: Ctx) -> Outcome:
     t_mc = t_run = t_val = 0.0
     acts = {}
     counts = {}
+    pinfo, pn = {}, 0
+    if not ctx.replay or 'hist' in ctx.replay['replay']['case']:
+        t0 = time.time()
+        pinfo, ps, pt, pn = _params(ctx, out)
+        pinfo['wall'] = round(time.time() - t0, 1)
+        states += ps
+        trans += pt
+        if ctx.replay:
+            out.coverage = {'states': states, 'transitions': trans, 'traces_validated_against_impl': pn, 'foreach_block_parameters': pinfo}
+            return out
     if ctx.replay:
         cases = [ctx.replay['replay']['case']]
     else:
@@ -241,6 +381,7 @@ def run(ctx: Ctx) -> Outcome:
         if got is None or (got[0] not in expect.split('|') and by_case.get(j) is None):
             raise MachineryError('corrupted observation (%s) of case %d was not rejected as expected: got %s' % (expect, j, got))
     clause_counts = {}
+    drift = []
     for ci in sorted(by_case):
         if ci >= nreal:
             continue
@@ -255,7 +396,13 @@ def run(ctx: Ctx) -> Outcome:
             case.get('workers'), case.get('sched'), (' error: ' + rec.get('err_text', '')) if rec['obs']['raised'] else '')
         if clause == 'mappings-not-restored':
             detail += ' observed im=%s fm=%s' % (rec['obs']['data']['im'], rec['obs']['data']['fm'])
+        if clause == 'passdata-not-restored-or-lost':
+            detail += ' observed cell=%s gs=%s' % (rec['obs']['data'].get('cell'), rec['obs']['data'].get('gs'))
         out.violations.append(Violation('C11', clause, key_of(rec, clause, extra), detail, {'case': case}))
+        if extra and extra != 'unexplained' and len(drift) < 5:
+            drift.append('DRIFT property=C11 the implementation behaves like the L2 variant "%s" of the interpreter, not like the property '
+                         '(first seen on tree %s)' % (extra, json.dumps(rec['tree'])[:300]))
+    out.notes.extend(sorted(set(d.split(' (first seen')[0] for d in drift)))
     # ------------------------------------------------------------------ evidence
     srcs = {}
     for i in idx:
@@ -269,8 +416,8 @@ def run(ctx: Ctx) -> Outcome:
     nrt = sum(1 for i in idx if P.needs_runtime(recs[i]['tree']))
     out.coverage = {
         'states': states, 'transitions': trans,
-        'traces_validated_against_impl': nreal,
-        'evaluations': nreal, 'distinct_nontrivial': len(nontrivial),
+        'traces_validated_against_impl': nreal + pn,
+        'evaluations': nreal + pn, 'distinct_nontrivial': len(nontrivial),
         'rule': 'one case = one pass tree + scripts run on the real passes; non-trivial = at least one control pass and at least one '
                 'body execution; distinct by hash of (input, tree, scripts)',
         'exhaustive': False,
@@ -278,6 +425,7 @@ def run(ctx: Ctx) -> Outcome:
                            'control passes) x every script assignment; all of those that need no runtime are run (quick: a seeded '
                            'sample of %d), the ParallelDo/ForEach ones are sampled' % n_dir_quick,
         'model_checking': {'spec': 'specs/control/ControlFlowMC.tla', 'actions': acts, **counts},
+        'foreach_block_parameters': pinfo,
         'by_source': srcs, 'by_control_pass': kinds_cov, 'through_simulated_runtime': nrt,
         'corrupted_observations_rejected': ncor,
         'verdicts_by_clause': clause_counts,
